@@ -222,7 +222,8 @@ class World:
             if kind == "empty":
                 blob = b""
             elif kind == "truncated":
-                blob = bytes(data[: max(1, len(data) // 2)])
+                # (a row damaged before may hold NULL or TEXT)
+                blob = bytes(data[: max(1, len(data) // 2)]) if isinstance(data, (bytes, memoryview)) else b""
             elif kind == "random":
                 blob = safe_garbage(self.r, 64)
             elif kind == "null":
